@@ -142,6 +142,7 @@ func NewEnv(obs *Obs) *env.Env {
 		obs.Trace = append(obs.Trace, "boom"+strconv.FormatInt(id, 10))
 		panic(fmt.Errorf("boom %d", id))
 	})
+	e.Define("nilfn", (func())(nil))
 	e.Define("mkch", func(a ...interface{}) interface{} {
 		c := make(chan interface{}, len(a)+1)
 		for _, x := range a {
